@@ -11,7 +11,6 @@ import (
 	"encoding/json"
 	"fmt"
 	"os"
-	"strings"
 
 	"go.sia.tech/core/types"
 	"verif/harness/internal/chaingen"
@@ -519,10 +518,13 @@ func (e *env) validAtTarget(what string, orig, out []types.V2Transaction, toN *c
 			made[o.Key] = true
 		}
 	}
-	// revisions of a contract that moved on, proofs for another branch's window etc. are decided by core
-	if strings.Contains(err.Error(), "revision") || strings.Contains(err.Error(), "proof") || strings.Contains(err.Error(), "contract") {
-		e.st["rebased-set-invalid:contract-state"]++
-		return
+	// a set that revises or resolves contracts depends on contract state that differs between
+	// branches (revision numbers, proof windows): decided by core, not judged here
+	for i := range out {
+		if len(out[i].FileContractRevisions)+len(out[i].FileContractResolutions) > 0 {
+			e.st["rebased-set-invalid:contract-state"]++
+			return
+		}
 	}
 	e.report("c13-rebased-set-not-valid-at-target", fmt.Sprintf("%s: every input is unspent at the target and inside its height window, yet the returned set does not validate in order at the target (position %d): %v", what, pos, err))
 }
@@ -634,6 +636,7 @@ func runCase(cs poolsim.Case, coqWanted bool) (coqOut string, failOut *failure, 
 				ex.mayErr = "the basis height does not match the block"
 			}
 			orig := deepCopy(set)
+			r.CorruptIndex = heightOff
 			out, err, pan := r.Update(set, metas, from, to)
 			st["updates"]++
 			d := len(func() []*chaingen.Node { a, b := poolsim.TreePath(fromN, toN); return append(a, b...) }())
@@ -649,34 +652,6 @@ func runCase(cs poolsim.Case, coqWanted bool) (coqOut string, failOut *failure, 
 			}
 			if from == to {
 				continue
-			}
-			if os.Getenv("POOLSIM_DEBUG") != "" && err != nil && poolsim.ErrClass(err) == 1 && pok {
-				cs, _ := r.CM.State(from.ID)
-				fmt.Fprintf(os.Stderr, "DEBUG %s: real says invalid proof; applied(from)=%v stored-elements-node=%d fromN=%d numLeaves stored=%d full=%d gen=%d\n", what, r.Applied[fromN], r.StoredElements(fromN).Idx, fromN.Idx, cs.Elements.NumLeaves, fromN.FullState.Elements.NumLeaves, r.StoredElements(fromN).FullState.Elements.NumLeaves)
-				for i := range set {
-					fmt.Fprintf(os.Stderr, "   tx %d: vs stored: %v ; vs full(from): %v\n", i, cs.Elements.ValidateTransactionElements(set[i]), fromN.FullState.Elements.ValidateTransactionElements(set[i]))
-				}
-			}
-			if os.Getenv("POOLSIM_DEBUG") != "" && err != nil && poolsim.ErrClass(err) == 5 && toN.Idx == 0 {
-				rv, ap := poolsim.TreePath(fromN, toN)
-				fmt.Fprintf(os.Stderr, "DEBUG5 %s: %v\n", what, err)
-				for _, x := range rv {
-					cs, ok := r.CM.State(x.Parent.ID)
-					fmt.Fprintf(os.Stderr, "   revert %d (applied %v) parent %d stored leaves %d ok %v full %d\n", x.Idx, r.Applied[x], x.Parent.Idx, cs.Elements.NumLeaves, ok, x.Parent.FullState.Elements.NumLeaves)
-				}
-				_ = ap
-				for _, x := range rv {
-					for i := range set {
-						_, e1 := r.CM.UpdateV2TransactionSet([]types.V2Transaction{set[i].DeepCopy()}, from, w.Info(x.Parent).Index)
-						fmt.Fprintf(os.Stderr, "   tx %d alone to block %d: %v\n", i, x.Parent.Idx, e1)
-					}
-				}
-				for i := range set {
-					for _, el := range elems(&set[i]) {
-						fmt.Fprintf(os.Stderr, "   tx %d elem %s leaf %d\n", i, el.key, el.se.LeafIndex)
-					}
-					fmt.Fprintf(os.Stderr, "   tx %d: sc %d sf %d rev %d res %d fc %d att %d\n", i, len(set[i].SiacoinInputs), len(set[i].SiafundInputs), len(set[i].FileContractRevisions), len(set[i].FileContractResolutions), len(set[i].FileContracts), len(set[i].Attestations))
-				}
 			}
 			e.judge(what, orig, out, err, ex, toN)
 		case "submit":
